@@ -215,7 +215,7 @@ theorem through_cls (a : String) (c : Cls) : (c.order.map Cls.id).Nodup → Thro
     exact hn3 x.id (List.mem_map_of_mem hx) i.id (by simp [Cls.id, Cls.info])
 
 /-- `resolve` is its specification (in particular the fuel `2 * size` always suffices). -/
-theorem resolve_eq_spec' (c : Cls) (a : String) (hn : c.ids.Nodup) : resolve c a = spec c a := by
+theorem resolve_eq_spec_model (c : Cls) (a : String) (hn : c.ids.Nodup) : resolve c a = spec c a := by
   obtain ⟨h1, h2⟩ := through_cls a c hn [] [] 0 (by simp)
   simp only [List.append_nil, Nat.zero_add] at h1 h2
   unfold resolve spec Cls.size
